@@ -205,6 +205,25 @@ def ptm5_rule(repo, rep):
                  "both partitions and both masks must come from the same (regridded) object")
     else:
         rep.ok("R-C09-3", f"{fi.file}:{wheres[hi[0]][0].lineno} ptm5", f"{o1}.where(freq >= fcut) / {o1}.where(freq <= fcut)", "closed cutoff masks on one object")
+    # the cutoff compared in the masks is the caller's: the parameter is never redefined (scalar coercion of itself aside)
+    if "fcut" not in fi.params:
+        raise AnalysisError("ptm5: parameter fcut not found")
+    redef = None
+    for n in ast.walk(fi.node):
+        if isinstance(n, (ast.Assign, ast.AugAssign)):
+            tg = n.targets if isinstance(n, ast.Assign) else [n.target]
+            if any(isinstance(x, ast.Name) and x.id == "fcut" for t_ in tg for x in ast.walk(t_)):
+                v_ = n.value
+                coercion = isinstance(n, ast.Assign) and isinstance(v_, ast.Call) and call_name(v_).split(".")[-1] in ("float", "float64", "float32", "asarray", "array") \
+                    and len(v_.args) == 1 and unparse(v_.args[0]) == "fcut" and not v_.keywords
+                if not coercion:
+                    redef = n
+    if redef is not None:
+        rep.fail("R-C09-3", fi.file, redef.lineno, fi.qualname, unparse(redef)[:110],
+                 "the cutoff is replaced by another value (e.g. snapped to a grid frequency) before the masks are built: for an off-grid cutoff "
+                 "without interpolation the partitions are then cut at a neighbouring frequency, not zero strictly beyond the requested one")
+    else:
+        rep.ok("R-C09-3", f"{fi.file}:{fi.node.lineno} ptm5", "fcut", "the masks compare against the cutoff as given")
     _concat_order(repo, rep, fi, [hi[0], lo[0]], "R-C09-3", "sea (high frequencies) first, swell second")
     _fillna(rep, fi, "R-C09-3")
     # regrid only when the cutoff is not a grid frequency
@@ -372,13 +391,24 @@ def bbox_rule(repo, rep):
     _fillna(rep, fi, "R-C09-2")
     # is_overlap: rectangles sharing only an edge do not overlap
     io = repo.func("wavespectra.core.utils.is_overlap")
-    unp = [n for n in ast.walk(io.node) if isinstance(n, ast.Assign) and isinstance(n.targets[0], ast.Tuple) and len(n.targets[0].elts) == 4]
+    unp = [n for n in ast.walk(io.node) if isinstance(n, ast.Assign) and isinstance(n.targets[0], ast.Tuple) and len(n.targets[0].elts) == 4
+           and isinstance(n.value, ast.Name) and n.value.id in io.params]
     if len(unp) != 2:
         raise AnalysisError("is_overlap: rectangle unpacking not found")
     pos = {}
     for k, u in enumerate(unp):
         for i, e in enumerate(u.targets[0].elts):
             pos[e.id] = (k, i)          # (rectangle, slot) slot: 0 low-x, 1 low-y, 2 high-x, 3 high-y
+    # the limits compared are the caller's: no redefinition between unpacking and the separating tests
+    for n in ast.walk(io.node):
+        if isinstance(n, (ast.Assign, ast.AugAssign)) and n not in unp:
+            tg = n.targets if isinstance(n, ast.Assign) else [n.target]
+            names_ = {x.id for t_ in tg for x in ast.walk(t_) if isinstance(x, ast.Name)}
+            if names_ & set(pos):
+                rep.fail("R-C09-2", io.file, n.lineno, io.qualname, unparse(n)[:110],
+                         f"the rectangle limits {sorted(names_ & set(pos))} are recomputed before they are compared, while bbox() builds its masks from the "
+                         "limits as given: boxes the masks treat as overlapping (e.g. an upper direction limit of 360 reduced to 0) pass the "
+                         "test and their bins are counted twice")
     good = set()
     for n in ast.walk(io.node):
         if isinstance(n, ast.Compare) and len(n.ops) == 1 and isinstance(n.ops[0], ast.LtE) and isinstance(n.left, ast.Name) and isinstance(n.comparators[0], ast.Name):
